@@ -205,10 +205,16 @@ def judge(case, impl, model):
                               + json.dumps(prev)[:200] + " after " + json.dumps(st["state"])[:200]))
             if st["out"] == "AttributeError" and op["op"] != "setattr" and not _field_set(prev, op["f"]):
                 pass    # the field is not set: there is no value to apply the operation to (not in the claim)
+            elif st["out"] == "AttributeError" and op["op"] == "call" and not _holds_collection(prev, op["f"]):
+                pass    # an AnyOf field currently holding a scalar: the value exposes no such method (not in the claim)
             elif st["out"] not in S.ALLOWED_ERRORS:
                 fails.append((f"error-class:{site}", f"{json.dumps(op)[:200]} raised {st['out']}: {st.get('msg')}"))
         prev = st["state"]
     return msg, fails
+
+
+def _holds_collection(state, name):
+    return any(k == name and isinstance(v, dict) and any(t in v for t in ("l", "q", "m")) for k, v in state["o"][1])
 
 
 def _field_set(state, name):
